@@ -155,6 +155,8 @@ def pairs_and_self(rep, hirx, wd, st, tier):
 ELIDED_RETURNS = [
     ("&self", "&Op"), ("&self", "Option<&Op>"), ("&self", "&str"), ("&self", "&[u8]"), ("&self", "Box<OpL>"), ("&self", "SB"),
     ("&self", "Result<&Op, ()>"), ("&self", "&DiplomatStr16"), ("&self", "Result<(), &Op>"), ("&self", "OpL<'_>"),
+    ("&self", "Result<u8, &Op>"), ("&self", "Result<Box<Op>, &Op>"), ("&self", "Result<u8, Box<OpL>>"), ("&self", "Result<St, SB>"), ("&self", "Result<&Op, u8>"),
+    ("&self", "Option<&str>"), ("&self", "Option<SB>"), ("&self", "Result<(), SB>"), ("&self", "Result<SB, ()>"),
     ("p: &Op", "&Op"), ("p: &Op", "Box<OpL>"), ("&self, p: &Op", "&Op"), ("p: &[u8]", "&[u8]"), ("p: SB", "SB"),
 ]
 NAMED_RETURNS = [
@@ -182,10 +184,10 @@ def lifetime_rules(rep, hirx, wd, st, tier):
     # implied bounds: every signature over 2 (thorough 3) lifetimes with every declared bound set
     sigs = list(S.enumerate_sigs(("a", "b"), ["none", "&'x self on Op", "self: SB<'x>"],
                                  ["&'x Op", "&'x OpL<'y>", "S2b<'x,'y>", "S2<'x,'y>", "SB<'x>", "&'x [u8]"], 1,
-                                 [f for f in S.RET_FORMS if f.name in ("&'r Op", "&'r OpL<'s>", "Box<OpL<'r>>", "S2<'r,'s>", "S2b<'r,'s>", "&'r [u8]")]))
+                                 [f for f in S.RET_FORMS if f.name in ("&'r Op", "&'r OpL<'s>", "Box<OpL<'r>>", "S2<'r,'s>", "S2b<'r,'s>", "&'r [u8]", "Result<u8, S2b<'r,'s>>", "Result<S2b<'r,'s>, u8>")]))
     if tier == "thorough":
         sigs += list(S.enumerate_sigs(("a", "b", "c"), ["none", "&'x self on Op"], ["&'x OpL<'y>", "S2b<'x,'y>", "&'x Op"], 1,
-                                      [f for f in S.RET_FORMS if f.name in ("&'r Op", "&'r OpL<'s>", "Box<OpL<'r>>", "S2b<'r,'s>")]))
+                                      [f for f in S.RET_FORMS if f.name in ("&'r Op", "&'r OpL<'s>", "Box<OpL<'r>>", "S2b<'r,'s>", "Result<u8, S2b<'r,'s>>")]))
     items = [{"id": i, "impl": s.impl_header(), "method": s.render_method("m")} for i, s in enumerate(sigs)]
     res = _hirx(hirx, wd, "implied", items, prelude=S.PRELUDE)
     for s, r in zip(sigs, res):
